@@ -17,6 +17,7 @@ import (
 	"testing"
 	"time"
 
+	"github.com/fxamacker/cbor/v2"
 	"go.flow.arcalot.io/pluginsdk/atp"
 	"go.flow.arcalot.io/pluginsdk/schema"
 	"pgregory.net/rapid"
@@ -25,7 +26,7 @@ import (
 )
 
 func TestMain(m *testing.M) {
-	ev.Note("rule", "C06: schedules as data. The build overlay generated from the working tree calls a hook before every statement of atp/client.go and atp/server.go (the yield-point table is re-derived on every run); a delay plan is a list of (point, occurrence, delay): the hook sleeps 4-10 ms the n-th time the point is reached. Real client and real RunATPServer talk over unbuffered pipes and run a session history: three serial Execute calls; two concurrent ones followed by a third; a gated step that receives a signal while running, then another call; a step-fatal error followed by a success; an error without run ID broadcast to a pending run (while its step is still running, and racing its result), followed by overlapping calls; two overlapping calls that carry the same run ID, followed by overlapping calls; Close at the end or concurrently with the last result. Quick tier: every point that the history reaches x occurrence {1,2} x every history (exhaustive single-delay sweep); thorough tier: additionally all ordered pairs of reached points on two histories and rapid-generated plans of 1-3 delays. Oracle: every Execute returns exactly once with its own run's result, Close returns, the server returns, and no goroutine with a frame in the client remains afterwards. A call that has not returned after 2 s (200x the total delay) is only reported if the session is provably quiescent: all planned delays are over and two goroutine dumps 300 ms apart show identical parked frames; otherwise the trial is waited out (30 s) or counted as inconclusive. Non-trivial: the planned point was actually reached at the planned occurrence; distinct by (history, plan).")
+	ev.Note("rule", "C06: schedules as data. The build overlay generated from the working tree calls a hook before every statement of atp/client.go and atp/server.go (the yield-point table is re-derived on every run); a delay plan is a list of (point, occurrence, delay): the hook sleeps 4-10 ms the n-th time the point is reached. Real client and real RunATPServer talk over unbuffered pipes and run a session history: three serial Execute calls; two concurrent ones followed by a third; a gated step that receives a signal while running, then another call; a step-fatal error followed by a success; an error without run ID broadcast to a pending run (while its step is still running, and racing its result), followed by overlapping calls; two overlapping calls that carry the same run ID, followed by overlapping calls; two histories against a correctly behaving harness peer that emits signals for its runs (the SDK's own server never does), taken by one caller and not by another; Close at the end or concurrently with the last result. Quick tier: every point that the history reaches x occurrence {1,2} x every history (exhaustive single-delay sweep); thorough tier: additionally all ordered pairs of reached points on two histories and rapid-generated plans of 1-3 delays. Oracle: every Execute returns exactly once with its own run's result, Close returns, the server returns, and no goroutine with a frame in the client remains afterwards. A call that has not returned after 2 s (200x the total delay) is only reported if the session is provably quiescent: all planned delays are over and two goroutine dumps 300 ms apart show identical parked frames; otherwise the trial is waited out (30 s) or counted as inconclusive. Non-trivial: the planned point was actually reached at the planned occurrence; distinct by (history, plan).")
 	ev.RegisterReplay("trial", func(t *testing.T, raw json.RawMessage) {
 		var c Trial
 		if err := json.Unmarshal(raw, &c); err != nil {
@@ -155,12 +156,81 @@ type session struct {
 	mu      sync.Mutex
 }
 
-func newSession() (*session, error) {
+// emittingPeer is a correctly behaving ATP v3 plugin written in the harness: the SDK's own server never sends signal
+// messages to the client, so "signal traffic in both directions" needs a peer that does. It announces the test
+// plugin's schema; every work-start is answered - from a goroutine of its own, so that runs overlap - by two signal
+// messages for that run, then (after the run's gate, if any) by the work-done message; signals from the client are
+// read and dropped; client-done or the end of the input ends it once the running steps have answered.
+func emittingPeer(in io.ReadCloser, out io.WriteCloser, gates *atpx.Gates) {
+	defer func() {
+		_ = out.Close()
+		_ = in.Close()
+	}()
+	dec := atpx.Dec.NewDecoder(in)
+	enc := cbor.NewEncoder(out)
+	var encMu sync.Mutex
+	send := func(id uint32, run string, data any) {
+		encMu.Lock()
+		defer encMu.Unlock()
+		_ = enc.Encode(atp.RuntimeMessage{MessageID: id, RunID: run, MessageData: data})
+	}
+	var start any
+	if dec.Decode(&start) != nil {
+		return
+	}
+	desc, err := atpx.TestPlugin(gates, nil).SelfSerialize()
+	if err != nil {
+		return
+	}
+	if enc.Encode(atp.HelloMessage{Version: 3, Schema: desc}) != nil {
+		return
+	}
+	var running sync.WaitGroup
+	defer running.Wait()
+	for {
+		var m atp.DecodedRuntimeMessage
+		if dec.Decode(&m) != nil {
+			return
+		}
+		switch m.MessageID {
+		case atp.MessageTypeWorkStart:
+			var ws atp.WorkStartMessage
+			if atpx.Dec.Unmarshal(m.RawMessageData, &ws) != nil {
+				continue
+			}
+			cfg, _ := ws.Config.(map[any]any)
+			gate, _ := cfg["gate"].(string)
+			run := m.RunID
+			running.Add(1)
+			go func() {
+				defer running.Done()
+				gates.Open("started:" + run)
+				send(atp.MessageTypeSignal, run, atp.SignalMessage{SignalID: "progress", Data: map[string]any{"x": int64(1)}})
+				send(atp.MessageTypeSignal, run, atp.SignalMessage{SignalID: "progress", Data: map[string]any{"x": int64(2)}})
+				if gate != "" {
+					gates.Wait(gate, 20*time.Second)
+				}
+				send(atp.MessageTypeWorkDone, run, atp.WorkDoneMessage{StepID: ws.StepID, OutputID: "success", OutputData: map[string]any{"tag": run, "n": int64(len(run))}})
+			}()
+		case atp.MessageTypeClientDone:
+			return
+		}
+	}
+}
+
+func newSession() (*session, error) { return newSessionWith(false) }
+
+func newSessionWith(emitting bool) (*session, error) {
 	s := &session{gates: atpx.NewGates(), srvDone: make(chan []*atp.ServerError, 1)}
 	stdinR, stdinW := io.Pipe()
 	stdoutR, stdoutW := io.Pipe()
 	plugin := atpx.TestPlugin(s.gates, nil)
 	go func() {
+		if emitting {
+			emittingPeer(stdinR, stdoutW, s.gates)
+			s.srvDone <- nil
+			return
+		}
 		s.srvDone <- atp.RunATPServer(context.Background(), stdinR, stdoutW, plugin)
 	}()
 	s.stdoutR = stdoutR
@@ -186,12 +256,17 @@ func (s *session) execute(run, behaviour, gate string, toStep <-chan schema.Inpu
 }
 
 func (s *session) executeStep(run, step, behaviour, gate string, toStep <-chan schema.Input) *call {
+	return s.executeEmitting(run, step, behaviour, gate, toStep, nil)
+}
+
+// executeEmitting passes a channel for the signals the step emits (nil: the caller does not want them).
+func (s *session) executeEmitting(run, step, behaviour, gate string, toStep <-chan schema.Input, fromStep chan<- schema.Input) *call {
 	c := &call{run: run, done: make(chan struct{})}
 	s.mu.Lock()
 	s.calls = append(s.calls, c)
 	s.mu.Unlock()
 	go func() {
-		r := s.client.Execute(schema.Input{RunID: run, ID: step, InputData: atpx.StepConfig(behaviour, gate, run)}, toStep, nil)
+		r := s.client.Execute(schema.Input{RunID: run, ID: step, InputData: atpx.StepConfig(behaviour, gate, run)}, toStep, fromStep)
 		c.result = r
 		c.count.Add(1)
 		close(c.done)
@@ -291,7 +366,10 @@ func anyRunnable(gs []string) bool {
 }
 
 // Histories. Each returns a verdict; it must leave no call outstanding.
-var histories = []string{"serial3", "concurrent2plus1", "signal", "error_then_success", "close_races_last", "broadcast_error", "broadcast_error_concurrent", "same_run_id"}
+var histories = []string{"serial3", "concurrent2plus1", "signal", "error_then_success", "close_races_last", "broadcast_error", "broadcast_error_concurrent", "same_run_id", "emit_unwatched", "emit_watched"}
+
+// emitting reports whether the history runs against the harness peer that emits signals.
+func emitting(history string) bool { return strings.HasPrefix(history, "emit_") }
 
 func runHistory(name string, s *session, h *hookState) verdictT {
 	wait := func(c *call) verdictT { return await(c.done, h, "Execute("+c.run+")") }
@@ -395,6 +473,57 @@ func runHistory(name string, s *session, h *hookState) verdictT {
 		if v := wait(s.execute("h4", "success", "", nil)); v.class != "" {
 			return v
 		}
+	case "emit_unwatched":
+		// the plugin emits signals for runs whose callers passed no channel for them: they are dropped, nothing else
+		// changes - the run returns its result and later, overlapping calls work
+		if v := wait(s.execute("i1", "success", "", nil)); v.class != "" {
+			return v
+		}
+		c2 := s.execute("i2", "success", "gate-i2", nil)
+		if !s.gates.Wait("started:i2", 30*time.Second) {
+			return verdictT{class: "inconclusive"}
+		}
+		if v := wait(s.execute("i3", "success", "", nil)); v.class != "" {
+			return v
+		}
+		s.gates.Open("gate-i2")
+		if v := wait(c2); v.class != "" {
+			return v
+		}
+	case "emit_watched":
+		// one caller takes the emitted signals (and drains them, as Execute's contract demands), an overlapping one
+		// does not
+		from := make(chan schema.Input, 4)
+		got := make(chan int, 1)
+		go func() {
+			n := 0
+			for range from {
+				n++
+			}
+			got <- n
+		}()
+		c1 := s.executeEmitting("j1", "do", "success", "gate-j1", nil, from)
+		if !s.gates.Wait("started:j1", 30*time.Second) {
+			return verdictT{class: "inconclusive"}
+		}
+		if v := wait(s.execute("j2", "success", "", nil)); v.class != "" {
+			return v
+		}
+		s.gates.Open("gate-j1")
+		if v := wait(c1); v.class != "" {
+			return v
+		}
+		select {
+		case n := <-got:
+			if n != 2 {
+				return verdictT{msg: fmt.Sprintf("the caller of j1 received %d of the 2 signals its step emitted before the channel was closed", n), class: "signals_lost"}
+			}
+		case <-time.After(10 * time.Second):
+			return verdictT{msg: "the channel for the signals emitted by j1 was not closed after Execute(j1) returned", class: "signals_channel_open"}
+		}
+		if v := wait(s.execute("j3", "success", "", nil)); v.class != "" {
+			return v
+		}
 	case "same_run_id":
 		// two overlapping calls that carry the same run ID (a caller's mistake, but each call must still return: the
 		// one that registers second is refused, or - if the first has finished by then - runs like any other), then
@@ -474,7 +603,7 @@ func runTrial(tr Trial) (string, string) {
 	h := install(len(points), tr.Plan)
 	defer uninstall()
 	head := fmt.Sprintf("history %s, plan: %s", tr.History, describePlan(tr.Plan))
-	s, err := newSession()
+	s, err := newSessionWith(emitting(tr.History))
 	if err != nil {
 		return fmt.Sprintf("handshake failed on a healthy connection: %v\n%s", err, head), "handshake"
 	}
@@ -582,7 +711,7 @@ func runTrial(tr Trial) (string, string) {
 
 func baselineHits(t *testing.T, hist string) []int64 {
 	h := install(len(points), nil)
-	s, err := newSession()
+	s, err := newSessionWith(emitting(hist))
 	if err != nil {
 		uninstall()
 		t.Fatalf("baseline handshake failed: %v", err)
@@ -674,7 +803,7 @@ func TestSingleDelaySweep(t *testing.T) {
 	if sh, _ := ev.Shard(); sh == 0 {
 		ev.Note("points_never_reached_by_the_histories", fmt.Sprintf("%d: %s", len(names), strings.Join(names, "; ")))
 	}
-	ev.Exhaustive("single-delay sweep: every reached yield point x occurrence {1,2} x 8 histories")
+	ev.Exhaustive("single-delay sweep: every reached yield point x occurrence {1,2} x 10 histories")
 }
 
 // TestPairSweep (thorough): all ordered pairs of reached points on two histories.
